@@ -63,7 +63,6 @@ func generateBindings(module, scratch string) (map[string]string, error) {
 	return extra, nil
 }
 
-
 // generateRootBindings runs the ROOT module's current generator (go run .)
 // on the data types of the verification manifest, converted to its
 // parsed-spec format: same type descriptions, the fields of included records
